@@ -23,6 +23,18 @@ CHECKS = {
  "C15": dict(cat="fault_enumeration", tech="enumerated state x operation x event x timing matrix on the real ring with yield-hook steering; stuck calls decided from goroutine state snapshots; later-calls probe",
    text="583 applicable cells of the blocking matrix are executed; yield hooks place Close / commits exactly in the check-to-Wait window and before the Lock; afterwards every exported method is probed. A parked call with no enabled waker (two identical all-parked snapshots) is the witness.",
    note="liveness restated as absence of stuck states on the enumerated matrix; deadlines are only watchdogs", ref="3/C15"),
+ "C01": dict(cat="exploration", tech="reference-model monitor over wire histories of a real broker (net.Pipe) at synctest quiescence points; payloads carry unique id + CRC",
+   text="Thousands of generated sequential histories are executed step by step against the real broker; after every publish, at true quiescence, each subscriber's received copies are compared with what a small subscription model and the MQTT 4.7 matcher allow (1..k copies, QoS multiset, nobody else). Sampling of histories, not exhaustive.",
+   note="trusted: synctest quiescence, spec.Match, the subscription model; known finding F-C01-1 (empty levels) recognised by classifier", ref="3/C01"),
+ "C07": dict(cat="exploration", tech="wire-level monitor: SUBACK/UNSUBACK obligations and probe-publish effect check at synctest quiescence",
+   text="Generated SUBSCRIBE/UNSUBSCRIBE packets incl. invalid filters and out-of-range QoS are sent to the real broker; silence on an open connection, a wrong code, order or count is a violation, and probes after the ack verify that exactly the granted filters are effective.",
+   note="trusted: reference encoder for malformed requests, synctest quiescence", ref="3/C07"),
+ "C08": dict(cat="exploration", tech="last-writer-wins model monitor over wire histories at synctest quiescence; CRC payloads",
+   text="Retained/plain/clearing publishes, filler traffic beyond two ring sizes and new subscriptions are interleaved; at every new subscription the exact multiset of retained deliveries (flag, QoS, payload identity) is compared with the model.",
+   note="sequential histories only in this check; concurrent retained updates are exercised by C18's workload", ref="3/C08"),
+ "C09": dict(cat="fault_enumeration", tech="fault-sequence monitor: endings x will parameters x session histories, witness client at synctest quiescence, virtual-time keep-alive, chaos conn read faults",
+   text="Every way a connection can end in the harness (7 endings incl. injected read errors and virtual-time keep-alive expiry) is crossed with will parameters and CleanSession histories; the witness must see this connection's will exactly once, or never after DISCONNECT.",
+   note="trusted: synctest virtual time; teardown-finished hook events counted per connection", ref="3/C09"),
 }
 PENDING = {}
 ALL = ["C%02d" % i for i in range(1, 21)]
